@@ -611,7 +611,8 @@ int disasm_arm64(
           if (v == 1)
           {
             size |= ((opcode >> 23) & 1) << 2;
-            reg_name = scalar_size[size];
+            // scalar_size has 5 entries, size can be 0..7 here.
+            reg_name = size < (int)sizeof(scalar_size) ? scalar_size[size] : '?';
           }
             else
           {
@@ -651,7 +652,8 @@ int disasm_arm64(
           if (v == 1)
           {
             size |= ((opcode >> 23) & 1) << 2;
-            reg_name = scalar_size[size];
+            // scalar_size has 5 entries, size can be 0..7 here.
+            reg_name = size < (int)sizeof(scalar_size) ? scalar_size[size] : '?';
           }
 
           if (imm == 0)
@@ -684,7 +686,8 @@ int disasm_arm64(
           if (v == 1)
           {
             size |= ((opcode >> 23) & 1) << 2;
-            reg_name = scalar_size[size];
+            // scalar_size has 5 entries, size can be 0..7 here.
+            reg_name = size < (int)sizeof(scalar_size) ? scalar_size[size] : '?';
           }
 
           snprintf(instruction, length, "%s %c%d, 0x%04x (offset=%d)",
